@@ -12,7 +12,9 @@ import (
 	"bytes"
 	"errors"
 	"fmt"
+	"github.com/ishidawataru/sctp"
 	"io"
+	"net"
 	"runtime"
 	"sync"
 	"sync/atomic"
@@ -546,6 +548,27 @@ func (p *planner) write(b []byte, accept func([]byte)) (int, error) {
 	return len(b), nil
 }
 
+// sctpPlanned is an in-memory SCTP association (backend of the verif hook) whose writes follow
+// the plan; reads block until it is closed.
+type sctpPlanned struct {
+	p      *planner
+	once   sync.Once
+	closed chan struct{}
+}
+
+func newSCTPPlanned(p *planner) *sctpPlanned { return &sctpPlanned{p: p, closed: make(chan struct{})} }
+
+func (s *sctpPlanned) SCTPRead(b []byte) (int, *sctp.SndRcvInfo, error) {
+	<-s.closed
+	return 0, nil, io.EOF
+}
+func (s *sctpPlanned) SCTPWrite(b []byte, info *sctp.SndRcvInfo) (int, error) {
+	return s.p.write(b, nil)
+}
+func (s *sctpPlanned) Close() error         { s.once.Do(func() { close(s.closed) }); return nil }
+func (s *sctpPlanned) LocalAddr() net.Addr  { return memnet.Addr{Net: "sctp", Str: "10.1.2.3:3868"} }
+func (s *sctpPlanned) RemoteAddr() net.Addr { return memnet.Addr{Net: "sctp", Str: "10.9.8.7:40000"} }
+
 type plainWriter struct{ p *planner }
 
 func (w plainWriter) Write(b []byte) (int, error) { return w.p.write(b, nil) }
@@ -683,6 +706,25 @@ func runFault(c FaultCase) *ev.Failure {
 		w = plainWriter{p}
 	case "stream":
 		w = &streamWriter{p: p}
+	case "sctp", "sctp-conn":
+		be := newSCTPPlanned(p)
+		sc := diam.NewVerifSCTPConn(be)
+		defer func() {
+			be.Close()
+			if c.Transport == "sctp" { // behind NewConn the serving loop may still be using it
+				diam.ReleaseVerifSCTPConn(sc)
+			}
+		}()
+		w = sc
+		if c.Transport == "sctp-conn" {
+			mux := diam.NewServeMux()
+			mux.HandleFunc("ALL", func(diam.Conn, *diam.Message) {})
+			conn, err := diam.NewConn(sc, "", mux, dict.Default)
+			if err != nil {
+				return ev.Failf("harness-conn", "NewConn: %v", err)
+			}
+			w = conn
+		}
 	case "conn":
 		mc = memnet.NewConn()
 		mc.WriteHook = p.write
@@ -708,7 +750,7 @@ func checkFault(c FaultCase, w io.Writer, p *planner, want outcome, a *gen.Msg, 
 	var n int64
 	var err error
 	switch {
-	case c.Transport == "stream":
+	case c.Transport == "stream" || c.Transport == "sctp" || c.Transport == "sctp-conn":
 		var k int
 		k, err = m.WriteToStreamWithRetry(w, uint(c.Stream), uint(c.Retries))
 		n = int64(k)
@@ -823,6 +865,12 @@ var faultProp = ev.Register(&ev.Prop[FaultCase]{
 	Gen:  genFaultCase([]string{"writer", "stream"}), Run: runFault, Classify: classifyFault,
 })
 
+var faultSCTPProp = ev.Register(&ev.Prop[FaultCase]{
+	ID: "C07", Name: "faults-sctp",
+	Rule: "transports: a diam.SCTPConn over an in-memory association whose writes follow the plan, bare and behind diam.NewConn; " + faultRule,
+	Gen:  genFaultCase([]string{"sctp", "sctp-conn"}), Run: runFault, Classify: classifyFault,
+})
+
 var faultConnProp = ev.Register(&ev.Prop[FaultCase]{
 	ID: "C07", Name: "faults-conn",
 	Rule: "transport: the diam.Conn returned by diam.NewConn over a memnet.Conn whose Write follows the plan; " + faultRule,
@@ -836,6 +884,7 @@ func TestC07Concurrent(t *testing.T) {
 }
 func TestC07Faults(t *testing.T)     { faultProp.Check(t, 2400, 120000) }
 func TestC07FaultsConn(t *testing.T) { faultConnProp.Check(t, 1600, 80000) }
+func TestC07FaultsSCTP(t *testing.T) { faultSCTPProp.Check(t, 1200, 60000) }
 func TestC07Keep(t *testing.T)       { ev.RunKeep(t, "C07") }
 func TestReplay(t *testing.T)        { ev.Replay(t) }
 
@@ -857,3 +906,112 @@ func TestC07RetryKeepsTheConnection(t *testing.T) {
 		}
 	})
 }
+
+// ---------------------------------------------------------------------------
+// part (c): a handle that outlives its connection. The diam.Conn of a connection whose peer has
+// gone is still held by the application (a session table, a relay) and written to later on,
+// while newer connections are in use: whatever those stale writes return, nothing of them may
+// reach another connection's transport, and the newer connections' own messages still arrive
+// whole, once, in order.
+
+type StaleCase struct {
+	Conns  int   `json:"conns"`   // connections opened one after the other (2..4); all but the last have ended when the last is used
+	Fills  []int `json:"fills"`   // filler sizes of the messages written to the live connection
+	StaleK int   `json:"stale_k"` // a write to every stale handle happens before the StaleK-th live write (and once at the end)
+	Retry  bool  `json:"retry"`   // writers use WriteToWithRetry
+}
+
+func runStale(c StaleCase) *ev.Failure {
+	runtime.GC() // start from empty pools: what the library pools, if anything, comes from this case
+	runtime.GC()
+	var handles []diam.Conn
+	var transports []*memnet.Conn
+	for i := 0; i < c.Conns; i++ {
+		mc := memnet.NewConn()
+		mc.Remote = memnet.Addr{Net: "tcp", Str: fmt.Sprintf("10.9.3.%d:40000", i+1)}
+		conn, err := serveConn(mc)
+		if err != nil {
+			return ev.Failf("harness-conn", "NewConn: %v", err)
+		}
+		handles, transports = append(handles, conn), append(transports, mc)
+		if i < c.Conns-1 {
+			a := abstractMsg(10+i, 0, 20)
+			if _, err := diamMsg(&a).WriteTo(conn); err != nil {
+				return ev.Failf("harness-write", "connection %d: %v", i, err)
+			}
+			if f := finish(mc); f != nil { // the peer goes away, the serving loop ends
+				return f
+			}
+		}
+	}
+	live, liveT := handles[c.Conns-1], transports[c.Conns-1]
+	before := make([]int, c.Conns)
+	for i, mc := range transports {
+		before[i] = len(mc.Written())
+	}
+	writeStale := func(round int) {
+		for i := 0; i < c.Conns-1; i++ {
+			a := abstractMsg(50+i, round, 33)
+			m := diamMsg(&a)
+			func() {
+				defer func() { recover() }()
+				if c.Retry {
+					m.WriteToWithRetry(handles[i], 2)
+				} else {
+					m.WriteTo(handles[i])
+				}
+			}()
+		}
+	}
+	var want [][]byte
+	for s, fill := range c.Fills {
+		if s == c.StaleK {
+			writeStale(s)
+		}
+		a := abstractMsg(0, s, fill)
+		want = append(want, a.RefBytes())
+		var n int64
+		var err error
+		if c.Retry {
+			n, err = diamMsg(&a).WriteToWithRetry(live, 2)
+		} else {
+			n, err = diamMsg(&a).WriteTo(live)
+		}
+		if err != nil || int(n) != len(a.RefBytes()) {
+			return ev.Failf("writer-error", "message %d written to the live connection (while %d earlier connections of the process have ended and their handles were written to): n=%d err=%v, want %d bytes and no error", s, c.Conns-1, n, err, len(a.RefBytes()))
+		}
+	}
+	writeStale(len(c.Fills))
+	stream := liveT.Written()[before[c.Conns-1]:]
+	f := finish(liveT)
+	msgs, tail, err := refcodec.SplitMessages(stream)
+	if err != nil || len(tail) != 0 || len(msgs) != len(want) {
+		return ev.Failf("stream-garbled", "the live connection's transport received %d bytes that split into %d messages (%d trailing bytes, err %v); %d messages were written to it - writes to handles of connections that had ended went on meanwhile", len(stream), len(msgs), len(tail), err, len(want))
+	}
+	for i := range want {
+		if !bytes.Equal(msgs[i], want[i]) {
+			return ev.Failf("message-corrupted", "message %d on the live connection's transport is not the %d-th message written to it (header %x): something written to the handle of a connection that had ended arrived here", i, i, msgs[i][:20])
+		}
+	}
+	return f
+}
+
+var staleProp = ev.Register(&ev.Prop[StaleCase]{
+	ID: "C07", Name: "stale-handles",
+	Rule: "2..4 connections opened one after the other in one process; all but the last have ended (peer EOF) when the last one is used; 1..6 messages (sizes around 1 KiB and 4 KiB) are written to the live connection while messages are also written to the handles of the ended ones; the live transport must receive exactly its own messages, whole, once, in order, and its writes must succeed; every case non-trivial",
+	Gen: func(t *rapid.T) StaleCase {
+		c := StaleCase{Conns: rapid.IntRange(2, 4).Draw(t, "conns"), Retry: rapid.Bool().Draw(t, "retry")}
+		n := rapid.IntRange(1, 6).Draw(t, "messages")
+		for i := 0; i < n; i++ {
+			c.Fills = append(c.Fills, genFill(t, "fill"))
+		}
+		c.StaleK = rapid.IntRange(0, n).Draw(t, "stale-at")
+		return c
+	},
+	Run: runStale,
+	Classify: func(c StaleCase) (bool, []string) {
+		return true, []string{fmt.Sprintf("ended-connections:%d", c.Conns-1)}
+	},
+})
+
+func TestC07StaleHandles(t *testing.T) { staleProp.Check(t, 150, 5000) }
